@@ -120,11 +120,13 @@ def build_frame(spec):
         fr.metadata_encoding, fr.data_encoding = b'a/b', b'c/d'
         fr.data = data
         if fr.flags_resume:
-            fr.resume_identification_token, fr.token_length = b'tok', 3
+            tok = bytes.fromhex(spec['token']) if spec.get('token') is not None else b'tok'
+            fr.resume_identification_token, fr.token_length = tok, len(tok)
     elif ty == 'LEASE':
         fr.number_of_requests, fr.time_to_live = spec.get('n', 1), spec.get('code', 1000)
     elif ty == 'RESUME':
-        fr.resume_identification_token, fr.token_length = b'tok', 3
+        tok = bytes.fromhex(spec['token']) if spec.get('token') is not None else b'tok'     # tokens are opaque bytes (a binary UUID, say), not text
+        fr.resume_identification_token, fr.token_length = tok, len(tok)
         fr.last_server_position = fr.first_client_position = 0
     return fr
 
